@@ -362,9 +362,22 @@ class C18(System):
         if self.snapshots:
             if st.snap is None:
                 for si in range(nS): acts.append(('snapshot', si))
-            else:
+            elif self._reconnect_ok(st):
                 acts.append(('reconnect',))
         return acts
+
+    def _reconnect_ok(self, st):
+        """Connection.reconnect assigns the snapshot's stream to source.outs[i] / sink.ins[j]: inside the property's
+        preconditions only while the stream is not sitting at ANOTHER index of that same port list."""
+        c = st.snap
+        for unit, idx, side in ((c.source, c.source_index, '_outs'), (c.sink, c.sink_index, '_ins')):
+            if unit is None or self._u(st, unit) in (None, 'foreign'): continue
+            lst = getattr(unit, side)._streams
+            if idx is None or idx < 0: return False
+            if idx > len(lst) or (idx == len(lst) and getattr(unit, side)._fixed_size): return False
+            for k, x in enumerate(lst):
+                if x is c.stream and k != idx: return False
+        return True
 
     def _docked_elsewhere(self, st, s, side):
         return False
